@@ -234,7 +234,9 @@ type knownFinding struct {
 }
 
 func loadKnown() []knownFinding {
-	b, err := os.ReadFile(filepath.Join(verifDir, "known_findings.json"))
+	// VERIF_KNOWN_FILE: test-only override, used by the sensitivity regression when
+	// it runs a check against an older base commit whose findings were open then
+	b, err := os.ReadFile(envOr("VERIF_KNOWN_FILE", filepath.Join(verifDir, "known_findings.json")))
 	if err != nil {
 		return nil
 	}
@@ -404,7 +406,9 @@ func check(id, tier string) int {
 	start := time.Now()
 	seed := seedFromEnv()
 	fmt.Printf("verifsim: property=%s tier=%s VERIF_SEED=%d\n", id, tier, seed)
-	wantRace := p.Tier == "S" && p.RaceShare > 0
+	// VERIF_NO_RACE: test-only, for the sensitivity regression on an older base
+	// commit whose own (since fixed) races would otherwise be credited to the change
+	wantRace := p.Tier == "S" && p.RaceShare > 0 && os.Getenv("VERIF_NO_RACE") == ""
 	sc := prepare(true, workerPkg(p), wantRace)
 	defer sc.cleanup()
 	buildS := time.Since(start).Seconds()
